@@ -79,7 +79,8 @@ PROPERTIES['C13'] = {
     _c13('transform_reduce', 'h_transform_reduce', 'transform_reduce(Par, plus, 3*x, init = 0) == sequential fold', lens=[3], tiers=['experimental']),
     _c13('count_all', 'h_count_all', 'count_if, all_of (Par) == sequential definition for every reduction tree', tiers=['thorough']),
     _c13('merge_rec', 'h_merge_rec', 'details::mergeRec (parallel stable merge used by stable_sort(Par, comp)): output is the STABLE merge of two sorted runs (left run first on ties) for every split and every parallel_invoke order', n=3, lens=[2, 3], unwind={'default': 6}, recursion={'mergeRec|mergeSortRec|parallel_invoke': 2}, timeout=1200, mem_gb=16),
-    _c13('sorted_range_join', 'h_sorted_range_join', 'details::SortedRange::join + swapBuffer (reduction step of the radix-sort path behind stable_sort(Par) on integers): two adjacent sorted runs, each in either buffer (inTmp symbolic, stale data in the other buffer), every split: afterwards the buffer named by inTmp holds the sorted merge', n=4, thr=8, lens=[2, 3, 4], unwind={'default': 6}, recursion={'mergeRec|mergeSortRec|parallel_invoke': 1}, timeout=1200, mem_gb=16),
+    _c13('sorted_range_join', 'h_sorted_range_join', 'details::SortedRange::join + swapBuffer (reduction step of the radix-sort path behind stable_sort(Par) on integers): two adjacent sorted runs, each in either buffer (inTmp symbolic, stale data in the other buffer), every split: afterwards the buffer named by inTmp holds the sorted merge', n=4, thr=8, lens=[2, 3], unwind={'default': 6}, recursion={'mergeRec|mergeSortRec|parallel_invoke': 1}, timeout=1200, mem_gb=16),
+    _c13('sorted_range_join_len4', 'h_sorted_range_join', 'details::SortedRange::join + swapBuffer [length = 4]', n=4, thr=8, unwind={'default': 6}, recursion={'mergeRec|mergeSortRec|parallel_invoke': 1}, timeout=1800, mem_gb=16, tiers=['thorough'], defs_extra={'VF_LEN': 4}),
     _c13('radix_sort_u8', 'h_radix_sort', 'stable_sort(Par) on integers = radix_sort / SortedRange (split, operator(), join, swapBuffer, buffer parity inTmp) / LSB_radix_sort / Hist: sorted permutation of the input for every reduce tree over <=2 chunks, split timing and execution order (sequential histogram and std::merge inside: hook threshold 8)', n=3, thr=8, lens=[2, 3],
          unwind={'default': 5, 'Hist|histogram|prefixSum|LSB_radix': 257}, recursion={'mergeRec|mergeSortRec': 2}, defs_extra={'VF_KEY_T': 'unsigned char', 'VF_TBB_MAX_CHUNKS': 2}, timeout=1500, mem_gb=24, tiers=['experimental']),
   ]),
@@ -151,6 +152,13 @@ PROPERTIES['C02'] = {
   'obligations': [
     dict(name='shadows', harness='c02_kernels.cpp', entry='h_shadows', backends=['minisat'], timeout=300, unwind={'default': 2},
          claim='Shadows(p,q,d) xor Shadows(q,p,-d) unless p==q and d==0; withSign', bounds='all finite doubles', targets=['shared.h Shadows, withSign']),
+  ] + [
+    dict(name='shadow01_edge_symmetry_' + n, harness='c02_kernels.cpp', entry='h_s01sym_' + n, real='f12', defs={'VF_BND': 8}, backends=['minisat', 'kissat'], timeout=900, unwind={'default': 13},
+         tiers=['quick', 'thorough'] if n == 'tt' else ['thorough'],
+         claim='Shadow01<%s>: the result for an edge does not depend on which of its two paired halfedges names it (tie-break direction = sum of both adjacent face normals), for all operands including exact ties; result in {-1,0,1}' % n,
+         bounds='12-bit IEEE-style floats (4 exponent, 7 mantissa bits), |x| <= 8: the tie-break logic does not depend on precision, and the two Interpolate evaluations must be recognised as equal by the solver', targets=['boolean3.cpp Shadow01', 'shared.h Shadows, Interpolate, withSign'])
+    for n in ('tt', 'tf', 'ft', 'ff')
+  ] + [
     dict(name='k02_tt_f16', harness='c02_kernels.cpp', entry='h_k02_tt', real='f16', defs={'VF_BND': 1024}, backends=['kissat', 'minisat'], timeout=900, unwind={'default': 13}, tiers=['quick', 'thorough'],
          claim='Kernel02<expandP=true,forward=true>: all harvested library assertions + |s02|<=1 + z02 not NaN when s02!=0', bounds='IEEE binary16 arithmetic, |x|<=1024, arbitrary finite normals, all 6 vertex numberings',
          targets=['boolean3.cpp Kernel02::operator(), Shadow01, LoadFaceEdges', 'shared.h Interpolate, Shadows']),
